@@ -159,3 +159,12 @@ def overwrite_times(vc):
     vc.ensure('C16/overwrite_times/post/consecutive-frames-spaced-by-exactly-the-slew-time', Implies(And(mm >= 1, mm < n), eq(gap, slew)))
     vc.ensure('C16/overwrite_times/post/first-frame-start-unchanged', eq(h.read('t_start', frames.at(0).ref_id), old.read('t_start', frames.at(0).ref_id)))
     vc.ensure('C16/overwrite_times/frame/list-unchanged', frames.mutations == 0)
+
+
+# Cadence.add_signal hands every frame to Frame.add_signal with its time axis shifted by the frame's start offset (call-site obligation
+# above).  That a single frame injects correctly on a *shifted* axis - sub-sample grids and the smearing end points taken from the frame's
+# own ts, not from 0 - is C01's contract with a symbolic axis origin; it is discharged again here because the time-continuity clause of this
+# property rests on it.
+from . import c01 as _C1
+contract('C16', 'single_frame_injection_on_a_shifted_time_axis', functions=[_C1.ADD, FRAME + '.ts_ext'],
+         note="C01's flags_callable_time contract (integrate_path / integrate_t_profile / doppler_smearing, symbolic axis origin T0)")(_C1.flags_callable_time)
